@@ -17,7 +17,7 @@ import (
 // (b) the HLS muxer (one directory per stream name) to write only below its root, (c) the
 // recordings (one file per stream name) to stay in their directory.
 func c14r6(p *model.Prog, r *report.Result) {
-	r.Rule("C14.R6", "path confinement: (read) every ReadFile of hls.ServerHandler is dominated by the 'inside' edge of a confinement test (a bool function built on filepath.Rel) applied to the same path; (write) every hls.NewMuxer call is dominated by the 'inside' edge of a confinement test whose path argument derives from the same stream name, and NewMuxer is not called from anywhere else; (record) the file a recording writer opens is filepath.Join(<configured directory>, Sprintf(F, stream name, ...)) with a format F that adds literal characters to the name and contains no path separator, so the element can be neither '..' nor a sub-path")
+	r.Rule("C14.R6", "path confinement: (read) every ReadFile of hls.ServerHandler is dominated by the 'inside' edge of a confinement test (a bool function built on filepath.Rel) applied to the same path; (write) every hls.NewMuxer call is dominated by the 'inside' edge of a confinement test whose path argument derives from the same stream name, and NewMuxer is not called from anywhere else; (record) the file a recording writer opens is filepath.Join(<configured directory>, Sprintf(F, stream name, ...)) and the open is dominated by the inside-edge of a confinement test of that same path (the RTMP publish name becomes the stream name verbatim, separators included)")
 	// confinement tests: lal functions returning bool that (depth <= 2) call path/filepath.Rel
 	confMemo := map[*ssa.Function]bool{}
 	var isConf func(fn *ssa.Function, d int) bool
@@ -186,8 +186,12 @@ func c14r6(p *model.Prog, r *report.Result) {
 			nRec++
 			args := ed.Site.Common().Args
 			path := args[len(args)-1]
+			// the RTMP publish name is taken verbatim as the stream name and may contain '/' and
+			// '..': the shape of the file name alone does not confine it, the path itself must pass
+			// a confinement test
+			confined := confinedBy(ed.Site, func(a ssa.Value) bool { return a == path || sameLoad(a, path, 0) })
 			why := recordPathShape(path)
-			r.Check(why == "", "C14.R6", fkey(fn, "record", w.typ), p.InstrPos(ed.Site), "Join(<configured dir>, Sprintf(<format with literal characters, no separator>, name, ...))", "the recording file name is not of the confined shape ("+why+"): a peer-chosen stream name can select a file outside the recording directory")
+			r.Check(confined && why == "", "C14.R6", fkey(fn, "record", w.typ), p.InstrPos(ed.Site), "Join(<configured dir>, Sprintf(..)) opened only behind the confinement test of the same path", "the recording file is opened without testing that its path lies below the configured directory ("+why+"): rtmp publish('../../x') makes the stream name '../../x' and the recording is created two levels above the recording directory")
 		}
 	}
 	if nRec < 2 {
